@@ -27,6 +27,12 @@ ASSUMPTIONS = ["NaN is the representation of 'undefined'", "elements are strings
 def contain_counts(c, how):
     if how == "list":
         return list(c)
+    if how == "narrow":
+        # the narrowest integer dtype that holds every entry (int8 / uint8 / int16 / ... arrays are arrays too)
+        top = max(c)
+        for dt in (np.int8, np.uint8, np.int16, np.uint16, np.int32, np.uint32, np.int64):
+            if top <= np.iinfo(dt).max:
+                return np.array(c, dtype=dt)
     return np.array(c, dtype=np.int32 if how == "array32" else np.int64)
 
 
@@ -149,7 +155,7 @@ def chao_case(draw, tier="quick"):
         c[1] = 0
     if draw(st.integers(0, 5)) == 0:
         c[0] = 0
-    return {"counts": c, "m": draw(st.integers(1, 20)), "as": draw(st.sampled_from(["list", "array", "array32"]))}
+    return {"counts": c, "m": draw(st.integers(1, 20)), "as": draw(st.sampled_from(["list", "array", "array32", "narrow"]))}
 
 
 def enum_chao(tier):
@@ -157,6 +163,7 @@ def enum_chao(tier):
     for f1 in range(0, top + 1):
         for f2 in range(0, top + 1):
             yield {"counts": [f1, f2, 1], "m": 2, "as": "list" if (f1 + f2) % 2 else "array"}
+            yield {"counts": [f1 * 9 + 1, f2 * 10, 3], "m": 2, "as": "narrow"}
         yield {"counts": [f1], "m": 1, "as": "list"}
 
 
